@@ -413,6 +413,42 @@ def main(tier):
             compare(ck, st, md, 'FluorLine', fname, var, rv, ok, v, ref * sc, alt * sc, gZ, gE, lax, lshell_lab[None, :].repeat(N, 0), regime, label, rs, photo_ok[:, 0])
     relations(ck, st, 'FluorLine', lout, variants, gZ, gE, lax, lshell_lab[None, :].repeat(N, 0), below_l, aw, avog, lshell)
 
+    # ---- the variants are independent functions of (Z, shell/line, E): the SAME arguments handed to the ten variants back to back
+    # (random variant order, one process, no shuffling) give the bits each variant gives in a process that calls nothing else
+    Lq = execlib.Lib('kissel', 'plain', shuffle=False)
+    inter = {}
+    for what, outs, (aZ, aX, aE) in (('FluorShell', out, (sZ, sS, sE)), ('FluorLine', lout, (lZ, lL, lE))):
+        names = ['%s_%s_Kissel%s' % (u, what, SUFFIX[v]) for u in ('CS', 'CSb') for v in variants]
+        n = len(aZ)
+        pick = np.sort(rng.choice(n, size=min(n, 30000 if tier == 'quick' else 400000), replace=False))
+        reqs = []
+        for fname in names:
+            rq, _ = Lq.build(fname, aZ[pick], aX[pick], aE[pick])
+            reqs.append(rq)
+        allr = np.stack(reqs, axis=1)                                   # (picked, 10)
+        order = np.argsort(rng.random(allr.shape), axis=1)              # variant order differs from tuple to tuple
+        seq = np.take_along_axis(allr, order, axis=1).reshape(-1)
+        rr_ = Lq.run(seq)
+        COUNT['kissel'] = COUNT.get('kissel', 0) + len(seq)
+        got_v = np.empty(allr.shape); got_ok = np.empty(allr.shape, bool)
+        np.put_along_axis(got_v, order, rr_.v.reshape(allr.shape), axis=1)
+        np.put_along_axis(got_ok, order, rr_.ok.reshape(allr.shape), axis=1)
+        nbad = 0
+        for c, fname in enumerate(names):
+            ok0, v0, _ = outs[fname]
+            ok0, v0 = ok0.ravel()[pick], v0.ravel()[pick]
+            bad = np.nonzero((got_v[:, c].view('u8') != v0.view('u8')) | (got_ok[:, c] != ok0))[0]
+            nbad += len(bad)
+            for k in bad[:2]:
+                pos = int(np.nonzero(order[k] == c)[0][0])
+                prev = names[int(order[k][pos - 1])] if pos else '(another argument tuple)'
+                ck.violation('c08:%s:value-depends-on-preceding-variant-call' % fname,
+                             '%s(%d,%d,%.17g) = %r right after %s with the same arguments, %r in a process that calls only this variant' % (
+                                 fname, int(aZ[pick][k]), int(aX[pick][k]), float(aE[pick][k]), float(got_v[k, c]), prev, float(v0[k])),
+                             dict(call='%s(%d,%d,%.17g)' % (fname, int(aZ[pick][k]), int(aX[pick][k]), float(aE[pick][k])), preceded_by=prev, config='kissel'))
+        inter[what] = dict(tuples=int(len(pick)), calls=int(len(seq)), differing=int(nbad))
+    st['per_function']['interleaved-variants'] = inter
+
     # ------------------------------------------------------------------ shipped configuration: everything fails
     Ls = execlib.Lib('shipped', 'plain')
     e2, e2ok = fetch(Ls, 'EdgeEnergy', Z, md.shell_val)
